@@ -8,6 +8,7 @@ import (
 	"os"
 	"path/filepath"
 	"regexp"
+	"runtime/debug"
 	"sort"
 	"strings"
 )
@@ -68,6 +69,9 @@ func (c *Ctx) Rule(id, doc string, body func()) {
 			}
 			if _, ok := r.(abortRule); ok {
 				return // a Must failed: the violation is recorded, the rest of the rule has nothing to look at
+			}
+			if os.Getenv("MCPCHECK_PANIC_TRACE") != "" {
+				fmt.Fprintf(os.Stderr, "panic in %s: %v\n%s\n", id, r, debug.Stack())
 			}
 			c.add(id, "panic", "", vPanic, fmt.Sprint(r))
 		}
